@@ -174,6 +174,9 @@ theorem wrap_mods_unchanged (a : Annotation) (sel : List (Char × List Mod)) (i 
     modsAt (wrap a sel) i = sel[i].2 := by
   rw [modsAt_wrap a sel i h, map_normMult_id _ hm]
 
+example : (residues exA)[2]! = ('T', [⟨.flt "1.0".toList, 1⟩, ⟨.str "Phospho".toList, 2⟩]) ∧
+    ((residues exA)[2]!).2.all (fun m => decide (m.mult ≥ 1)) = true := by decide
+
 /-- labile, global, terminal and charge annotations of every result are those of the input -/
 theorem wrap_globals_unchanged (a : Annotation) (sel : List (Char × List Mod)) (h : expandDomain a = true) :
     (wrap a sel).labile = a.labile ∧ (wrap a sel).static = a.static ∧ (wrap a sel).isotope = a.isotope ∧
